@@ -171,6 +171,7 @@ def _c08() -> SimEngine:
                 cases.append(cc)
                 # ... and with a new request (possibly taking the freed name) between the cancellation and the call
                 cases.append({"pools": case["pools"], "steps": case["steps"][:-3] + [pre, respawn] + case["steps"][-3:]})
+                cases.append({"pools": case["pools"], "steps": case["steps"][:-3] + [pre, respawn, {"op": "tick", "k": 1}] + case["steps"][-3:]})
         if tier == "quick":
             cases = cases[::8]
         return ("base scenario (+sibling map) x [cancel_group in the same tick] x gather_and_close at every tick 0..6", cases, len(cases))
